@@ -7,7 +7,7 @@
 #include <stddef.h>
 
 #define VFS_PREFIX "/vmem/"
-#define VFS_MAXFILES 24
+#define VFS_MAXFILES 64
 #define VFS_PAGE 4096
 
 typedef struct vfile {
@@ -86,5 +86,7 @@ int      vfs_open_streams(void);                  /* number of currently open vF
 int      vfs_export(const char *vpath, const char *realpath); /* write to a real file */
 int      vfs_import(const char *realpath, const char *vpath);
 int      vfs_is_vfile(const FILE *fp);
+uint8_t *vfs_map_flat(const vfile *f, long *size); /* sparse-friendly flat copy (mmap) */
+void     vfs_unmap_flat(const vfile *f, uint8_t *m);
 
 #endif
